@@ -2,6 +2,10 @@ package tourney
 
 import (
 	"fmt"
+	"os"
+	"sort"
+	"strconv"
+	"time"
 
 	"verif/internal/explore"
 )
@@ -39,17 +43,41 @@ func settings(tier string) []Setting {
 	return out
 }
 
+// budget returns the wall-clock budget of a regulator check (VERIF_BUDGET_S overrides): when it
+// runs out, the remaining settings are skipped and the run reports exhaustive:false with what was completed.
+func budget(tier string) time.Duration {
+	if v, err := strconv.Atoi(os.Getenv("VERIF_BUDGET_S")); err == nil && v > 0 {
+		return time.Duration(v) * time.Second
+	}
+	if tier == "thorough" {
+		return 40 * time.Minute
+	}
+	return 10 * time.Minute
+}
+
 func runAll(rep *explore.Report, prop, tier string, sweeps bool) {
-	for _, s := range settings(tier) {
+	deadline := time.Now().Add(budget(tier))
+	all := settings(tier)
+	// smallest settings first, so that a budget overrun cuts the largest ones
+	sort.SliceStable(all, func(i, j int) bool { return all[i].Max*all[i].R < all[j].Max*all[j].R })
+	done := 0
+	for _, s := range all {
 		if sweeps && s.Mode != "atomic" {
 			continue
 		}
-		e := &Explorer{Prop: prop, Rep: rep, S: s}
+		if time.Now().After(deadline) {
+			rep.Cap(fmt.Sprintf("time budget reached: setting %d/%d %s not explored", s.Max, s.Min, s.Mode))
+			rep.Add("settings_skipped", 1)
+			continue
+		}
+		e := &Explorer{Prop: prop, Rep: rep, S: s, Deadline: deadline}
 		e.Run()
-		if sweeps {
+		if sweeps && !e.capped {
 			e.Sweeps(4)
 		}
+		done++
 	}
+	rep.Set("settings_completed", int64(done))
 	rep.Sample(map[string]any{"setting": map[string]int{"max": 9, "min": 6}, "history": []string{"Add(9)", "Status(1)", "Add(3)", "Sync(0,0)", "Sync(1,1)"}})
 	rep.Assumption("player names are abstracted in the state key: the regulator only appends, slices and passes names on, so states equal up to renaming have isomorphic futures; identities are re-checked concretely on every executed transition")
 	rep.Assumption("tables follow instructions: they seat whoever they are given, release exactly the requested number (longest-seated first) and close when told to break")
